@@ -269,6 +269,29 @@ func runC18(r *ev.Run) {
 		} else if n := normRef(x); math.Abs(n-1) > ct {
 			fail("cos.preprocess-inplace-not-unit", fmt.Sprintf("|PreprocessInPlace(a)|=%g", n))
 		}
+		// a raw vector that is ALMOST unit length is still normalised (a "close enough, skip it" shortcut would leave
+		// stored vectors and queries on slightly different scales)
+		if na := normRef(a); na > 1e-30 && na < 1e30 {
+			delta := []float64{1e-6, 1e-5, 1e-4, 2e-4, 4e-4, 1e-3, -1e-4, -4e-4, 3e-3}[rng.IntN(9)]
+			nu := make([]float32, dim)
+			for i := range nu {
+				nu[i] = float32(float64(a[i]) * (1 + delta) / na)
+			}
+			if n0 := normRef(nu); n0 > 0 {
+				if pn, err := cos.Preprocess(nu); err != nil {
+					fail("cos.preprocess-rejects-nonzero", "Preprocess failed on an almost-unit vector")
+				} else if n := normRef(pn); math.Abs(n-1) > ct {
+					fail("cos.preprocess-not-unit", fmt.Sprintf("|Preprocess(v)|=%.9g for |v|=%.9g", n, n0))
+				}
+				y := cloneF32(nu)
+				if err := cos.PreprocessInPlace(y); err != nil {
+					fail("cos.preprocess-inplace-rejects", "PreprocessInPlace failed on an almost-unit vector")
+				} else if n := normRef(y); math.Abs(n-1) > ct {
+					fail("cos.preprocess-inplace-not-unit", fmt.Sprintf("|PreprocessInPlace(v)|=%.9g for |v|=%.9g", n, n0))
+				}
+				r.Count("probes:almost-unit-vector", 1)
+			}
+		}
 		cab := float64(cos.Calculate(pa, pb))
 		cba := float64(cos.Calculate(pb, pa))
 		cref := cosDistRef(a, b)
@@ -351,6 +374,56 @@ func runC18(r *ev.Run) {
 			if len(cos.CalculateBatch(nil, pc)) != 0 {
 				fail("cos.batch-length", "empty batch returned results")
 			}
+		}
+		// large batches (blocked / tiled / parallel batch kernels change behaviour past a block size)
+		if i%4 == 0 {
+			nb := []int{1, 2, 7, 31, 32, 33, 63, 64, 65, 100, 129, 257, 1000}[rng.IntN(13)]
+			raw := make([][]float32, nb)
+			pre := make([][]float32, nb)
+			for i := range raw {
+				switch i % 4 {
+				case 0:
+					raw[i], pre[i] = a, pa
+				case 1:
+					raw[i], pre[i] = b, pb
+				case 2:
+					raw[i], pre[i] = c, pc
+				default:
+					v := genMagVec(rng, dim, sa)
+					pv, err := cos.Preprocess(v)
+					if err != nil {
+						v, pv = a, pa
+					}
+					raw[i], pre[i] = v, pv
+				}
+			}
+			for name, d := range map[string]comet.Distance{"l2": l2, "l2sq": l2sq} {
+				got := d.CalculateBatch(raw, b)
+				if len(got) != nb {
+					fail(name+".batch-length", fmt.Sprintf("CalculateBatch of %d queries returned %d values", nb, len(got)))
+					continue
+				}
+				for k, q := range raw {
+					w := float64(d.Calculate(q, b))
+					if math.Abs(float64(got[k])-w) > 2*rt*w+1e-37 {
+						fail(name+".batch-differs", fmt.Sprintf("batch of %d: batch[%d]=%g scalar=%g", nb, k, got[k], w))
+						break
+					}
+				}
+			}
+			got := cos.CalculateBatch(pre, pb)
+			if len(got) != nb {
+				fail("cos.batch-length", fmt.Sprintf("CalculateBatch of %d queries returned %d values", nb, len(got)))
+			} else {
+				for k, q := range pre {
+					w := float64(cos.Calculate(q, pb))
+					if math.Abs(float64(got[k])-w) > ct {
+						fail("cos.batch-differs", fmt.Sprintf("batch of %d: batch[%d]=%g scalar=%g", nb, k, got[k], w))
+						break
+					}
+				}
+			}
+			r.Count("probes:large-batch", 1)
 		}
 
 		// --- helpers ---
